@@ -243,6 +243,19 @@ def parseData (_cfg : PCfg) (w : Nat) (term : Option Nat) (rest : List Char) : E
       .ok (.data w vals, [])
   | [] => .error .badDirective
 
+/-- does the text begin with a label definition `.?\w+:` -/
+def startsLabelDef (cs : List Char) : Bool :=
+  let cs := if cs.head? == some '.' then cs.tail else cs
+  let w := cs.takeWhile isWordChar
+  !w.isEmpty && (cs.drop w.length).head? == some ':'
+
+/-- the text of an address / fill directive ends where, after white space, a label definition begins
+    (`.org $20 next: nop`); the rest of the line is read as further statements -/
+def cutAtLabelDef : List Char → List Char → List Char × List Char
+  | acc, [] => (acc.reverse, [])
+  | acc, c :: cs =>
+    if isSpaceChar c && startsLabelDef (ptrimL cs) then (acc.reverse, cs) else cutAtLabelDef (c :: acc) cs
+
 /-- statements of one source line (comment already stripped, trimmed); fuel = text length + 1 -/
 def parseStmts (cfg : PCfg) : Nat → List Char → Except Err (List Stmt)
   | 0, _ => .error .outOfFuel
@@ -267,24 +280,39 @@ def parseStmts (cfg : PCfg) : Nat → List Char → Except Err (List Stmt)
     else if c0 == '.' then
       match lowerS w with
       | ".org" =>
-        let body := ptrim rest
+        let (own, after) := cutAtLabelDef [] rest
+        let body := ptrim own
         -- an optional quoted zone name at the end
-        match body.getLast? with
-        | some '"' =>
-          let inner := body.dropLast
-          let zone := (inner.reverse.takeWhile (· != '"')).reverse
-          let ex := inner.take (inner.length - zone.length - 1)
-          do .ok [.org (← parseExprText (ptrim ex)) (some (String.ofList zone))]
-        | _ => do .ok [.org (← parseExprText body) none]
-      | ".memzone" => .ok [.memzone (String.ofList (ptrim rest))]
+        let st : Except Err Stmt := match body.getLast? with
+          | some '"' =>
+            let inner := body.dropLast
+            let zone := (inner.reverse.takeWhile (· != '"')).reverse
+            let ex := inner.take (inner.length - zone.length - 1)
+            do .ok (.org (← parseExprText (ptrim ex)) (some (String.ofList zone)))
+          | _ => do .ok (.org (← parseExprText body) none)
+        do .ok ((← st) :: (← parseStmts cfg fuel after))
+      | ".memzone" =>
+        -- the zone name is one word; whatever follows on the line is read as further statements
+        let body := ptrimL rest
+        let name := body.takeWhile isWordChar
+        do .ok (.memzone (String.ofList name) :: (← parseStmts cfg fuel (body.drop name.length)))
       | ".fill" =>
-        match splitCommas (ptrim rest) with
-        | [a, b] => do .ok [.fill (← parseExprText (ptrim a)) (← parseExprText (ptrim b))]
+        let (own, after) := cutAtLabelDef [] rest
+        match splitCommas (ptrim own) with
+        | [a, b] => do .ok (.fill (← parseExprText (ptrim a)) (← parseExprText (ptrim b)) :: (← parseStmts cfg fuel after))
         | _ => .error .badDirective
-      | ".zero" => do .ok [.fill (← parseExprText (ptrim rest)) (.num 0)]
-      | ".zerountil" => do .ok [.zerountil (← parseExprText (ptrim rest))]
+      | ".zero" =>
+        let (own, after) := cutAtLabelDef [] rest
+        do .ok (.fill (← parseExprText (ptrim own)) (.num 0) :: (← parseStmts cfg fuel after))
+      | ".zerountil" =>
+        let (own, after) := cutAtLabelDef [] rest
+        do .ok (.zerountil (← parseExprText (ptrim own)) :: (← parseStmts cfg fuel after))
       | ".align" =>
-        if (ptrim rest).isEmpty then .ok [.align none] else do .ok [.align (some (← parseExprText (ptrim rest)))]
+        if (ptrim rest).isEmpty then .ok [.align none]
+        else
+          let (own, after) := cutAtLabelDef [] rest
+          if (ptrim own).isEmpty then do .ok [.align (some (← parseExprText (ptrim rest)))]
+          else do .ok (.align (some (← parseExprText (ptrim own))) :: (← parseStmts cfg fuel after))
       | ".byte" => do let (s, after) ← parseData cfg 1 none rest; .ok (s :: (← parseStmts cfg fuel after))
       | ".2byte" => do let (s, after) ← parseData cfg 2 none rest; .ok (s :: (← parseStmts cfg fuel after))
       | ".4byte" => do let (s, after) ← parseData cfg 4 none rest; .ok (s :: (← parseStmts cfg fuel after))
